@@ -31,7 +31,7 @@ EPS = 2.0 ** -52
 K_FORCE = 256     # |force - oracle| <= K eps * (scale of the terms that are added/cancelled to form it); worst observed see evidence
 K_COST = 256      # |cost - oracle| <= K eps * sum |terms|
 TOL_FD = 1e-7     # relative, 5-point central differences of the cost inside one zone
-TOL_H = 2e-6      # relative to max|H|, finite differences of the force inside the middle zone
+TOL_H = 1e-8      # relative to max|H|, finite differences of the force inside the middle zone
 
 STATE_NAME = {0: 'satisfied', 1: 'quadratic', 2: 'linearneg', 3: 'linearpos', 4: 'cone'}
 
@@ -222,6 +222,7 @@ class Checker:
       i = int(np.argmax(err / tol))
       raise Violation('%s: efc_force[%d]=%r but the minimiser of the documented dual problem is %r (scale %.3g); %s' % (
           what, i, float(force[i]), float(f[i]), float(sc[i]), sysm.describe(jar)), bucket='force-vs-dual')
+    absc = max(absc, float(np.sum(sysm.D * jar * jar)))      # natural magnitude of the terms of s, also when the optimum is 0
     tolc = K_COST * EPS * absc + 1e-300
     self.note('cost', abs(cost - s) / tolc)
     if abs(cost - s) > tolc:
@@ -265,7 +266,17 @@ class Checker:
   def gradient_fd(self, sysm, jar, force, absc, rng):
     """-force . u == d cost / d u by central differences of the engine's cost (within one zone: tight; across: Lipschitz bound)."""
     n = sysm.nefc
+    E = self.lib.enums
+    # direction: every component moves by ~1e-4 of its own block's scale (elliptic blocks: in the w coordinates of the cone)
     u = rng.normal(size=n) * np.maximum(np.abs(jar), 1e-3 * np.max(np.abs(jar)) + 1e-300)
+    smooth = True
+    for kind, i, dim, mu in sysm.rows:
+      if kind == oc.ELLIPTIC:
+        wn = float(np.linalg.norm(jar[i + 1:i + dim] * mu))
+        L = abs(jar[i]) + wn
+        u[i:i + dim] = rng.normal(size=dim) * L / np.concatenate([[1.0], mu])
+        if wn < 2e-2 * L:
+          smooth = False              # next to the cone axis the higher derivatives of |w| are large: use the Lipschitz bound only
     h = 1e-4
     states = []
 
@@ -275,7 +286,7 @@ class Checker:
       return c_
     _, st0, _ = sysm.update(jar, True, 0)
     g = fd5(cost_at, h)
-    same = all(np.array_equal(s_, st0) for s_ in states)
+    same = smooth and all(np.array_equal(s_, st0) for s_ in states)
     want = -float(np.dot(force, u))
     scale = float(np.sum(np.abs(force * u))) + absc + 1e-300
     if same:
@@ -310,6 +321,7 @@ class Checker:
     """contact.H == - d force / d jar inside the middle zone, symmetric PSD."""
     E = self.lib.enums
     done = 0
+    sysm.update(jar, False, 1)            # (re)compute contact.H at exactly this point
     for kind, i, dim, mu in sysm.rows:
       if kind != oc.ELLIPTIC or state[i] != E.mjCNSTRSTATE_CONE:
         continue
@@ -440,7 +452,7 @@ def check_model(ck, chk, lib, gm, seed):
     if np.any(np.abs(force - f) > tol):
       k = int(np.argmax(np.abs(force - f) / tol))
       raise Violation('model: efc_force[%d]=%r, dual minimiser %r (type %d)' % (k, float(force[k]), float(f[k]), int(tp[k])), bucket='model-force')
-    tolc = K_COST * EPS * absc + 1e-300
+    tolc = K_COST * EPS * max(absc, float(np.sum(D * jar * jar))) + 1e-300
     if abs(float(cost[0]) - s) > tolc:
       raise Violation('model: cost %r, dual value %r' % (float(cost[0]), s), bucket='model-cost')
     q = np.array(d.qfrc_constraint)
@@ -526,6 +538,6 @@ regulariser coupling, impratio 0.1-100, anisotropic friction) with residuals dra
 magnitudes. Forces and cost are compared with the minimiser / optimal value of the documented dual problem, the force with finite differences of the engine's own cost,
 the cone Hessian with finite differences of the engine's force; continuity across boundaries is checked through the Lipschitz bound implied by convexity with Hessian <= D,
 convexity by midpoints, efc_state by the zone of the dual solution. The same oracle runs on generated models (also asserting the regulariser coupling and J' f).'''
-LEVEL_NOTE = '''Tolerances: 256 eps x the magnitude of the terms that are summed (worst observed ratios in evidence), 1e-7 relative for cost differences, 2e-6 relative for the
+LEVEL_NOTE = '''Tolerances: 256 eps x the magnitude of the terms that are summed (worst observed ratios in evidence), 1e-7 relative for cost differences, 1e-8 relative for the
 Hessian. Elliptic contacts with dim 1 are not passed with the elliptic type. Inputs that violate the regulariser coupling are outside the documented contract and not generated.
 The Hessian is only differenced where the whole stencil stays in the middle zone.'''
